@@ -1076,14 +1076,15 @@ Definition late_install (v : version) : version :=
         (v_writer_drop_destroys v) (v_reader_drop_destroys v) (v_copy_returns_destroy v) (v_copy_tail_destroys v)
         (v_part_destroys v) (v_part_error_frees_chunk v) (v_stitch_same_alloc v) (v_clone_same_alloc v)
         (v_slice_frees_input v) (v_multi_restores_input v) false (v_dict_ignores_one_byte v)
-        (v_dict_cut_discards v) (v_dict_cut_frees v) (v_copy_try_exits_destroy v) (v_join_failure_continues v).
+        (v_dict_cut_discards v) (v_dict_cut_frees v) (v_copy_err_try_destroys v) (v_copy_zero_try_destroys v)
+        (v_join_failure_continues v).
 Definition try_before_destroy (v : version) : version :=
   mkver (v_debug v) (v_cleanup_fields v) (v_destroy_cleans v) (v_dict_frees_old v) (v_dict_destroys_orig v)
         (v_ffi_destroy_cleans v) (v_single_cleans v) (v_oneshot_own_alloc v) (v_oneshot_destroys v)
         (v_writer_drop_destroys v) (v_reader_drop_destroys v) (v_copy_returns_destroy v) (v_copy_tail_destroys v)
         (v_part_destroys v) (v_part_error_frees_chunk v) (v_stitch_same_alloc v) (v_clone_same_alloc v)
         (v_slice_frees_input v) (v_multi_restores_input v) (v_dict_installs_first v) (v_dict_ignores_one_byte v)
-        (v_dict_cut_discards v) (v_dict_cut_frees v) false (v_join_failure_continues v).
+        (v_dict_cut_discards v) (v_dict_cut_frees v) false (v_copy_zero_try_destroys v) (v_join_failure_continues v).
 
 (* two jobs at quality 1 sharing a precomputed hasher: the second job ignores its dictionary *)
 Definition q1_thread : thread_spec :=
@@ -1099,10 +1100,12 @@ Proof. cbv zeta. split; [apply returnedb_spec|split]; vm_compute; reflexivity. Q
 Lemma try_before_destroy_refuted :
   returned (copy_life no_temps (current true) [] [] small_stream XWriteErrorReadPending) /\
   ~ returned (copy_life no_temps (try_before_destroy (current true)) [] [] small_stream XWriteErrorReadPending) /\
-  returned (copy_life no_temps (try_before_destroy (current true)) [] [] small_stream XWriteError).
+  returned (copy_life no_temps (try_before_destroy (current true)) [] [] small_stream XWriteError) /\
+  returned (copy_life no_temps (try_before_destroy (current true)) [] [] small_stream XZeroWriteReadPending).
 Proof.
-  split; [apply returnedb_spec; vm_compute; reflexivity|split].
+  split; [apply returnedb_spec; vm_compute; reflexivity|split; [|split]].
   - apply not_returned. vm_compute. reflexivity.
+  - apply returnedb_spec. vm_compute. reflexivity.
   - apply returnedb_spec. vm_compute. reflexivity.
 Qed.
 
